@@ -394,7 +394,7 @@ func (d *D) RunItem(idx int, ctx *core.Ctx) {
 			}
 		}
 	}
-	if c.native > 0 && idx%c.native == 0 && !found && os.Getenv("VERIF_NO_CONFORM") == "" {
+	if c.native > 0 && prng.Mix(uint64(idx), 0x5eed)%uint64(c.native) == 0 && !found && os.Getenv("VERIF_NO_CONFORM") == "" {
 		d.native(sc, ctx, obs0)
 	}
 	if len(ctx.St.Samples) < 3 && len(multi) > 0 && len(sc.Program) < 500 {
